@@ -480,7 +480,10 @@ class Gen:
         elif x < 80: self.emit('utf %d %s' % (e, U(noisy())))
         elif x < 88 and e != 8: self.emit('psp 0 ctor %d %s' % (e, U(units('a=', e) + noisy() + units('&', e) + noisy())))
         elif x < 94 and e != 8: self.emit('psp 0 append %d %s %d %s' % (e, U(noisy()), e, U(noisy())))
-        else: self.emit('frompath posix %d %s' % (e, U(units('/', e) + noisy())))
+        elif self.r.randrange(2): self.emit('frompath posix %d %s' % (e, U(units('/', e) + noisy())))
+        else:
+            # a path whose decisive characters come late (a scanner that covers only part of a wide string)
+            self.emit('frompath %s %d %s' % (self.pick(['posix', 'windows']), e, U(units(self.pick(['/srv/www/public/../secret', 'C:\\srv\\www\\public\\..\\secret', '\\\\server\\share\\public\\..\\x', '/a/b/c/d/e/f/g/h/%2e%2e', '/aaaaaaaaaaaaaaaaaaaaaaaa/b?c#d', 'C:\\aaaaaaaaaaaaaaaa\\b|c']), e))))
 
     def s_set_exh(self, k, stride=None):
         """C03/C05/C08: EVERY structured start URL x EVERY key value of every setter, one call each, then the call
